@@ -2,6 +2,7 @@ package dsim
 
 import (
 	"bytes"
+	"sync"
 	"time"
 	"errors"
 	"fmt"
@@ -23,6 +24,12 @@ type Net struct {
 	NoDial   bool // teardown: every dial fails
 	Dials    int
 	Unrel    bool // links offer an unreliable (datagram) side channel
+	Inline   bool // zero-latency network: the broker answers inside Write
+	OnLost   func(l *Link, dir string, m message.Message)
+	OnDial   func(l *Link)
+	InlineHandshake bool // only the connect handshake of new links is zero-latency
+	HandshakeCut    int  // the next n links die when the broker receives their ConnectRequest
+	inlineMu sync.Mutex
 }
 
 var errDialRefused = errors.New("dsim: dial refused")
@@ -52,6 +59,7 @@ type Link struct {
 	deadWriteErr error
 	clientClosed bool
 	blackhole    bool // peer silently gone: writes succeed, nothing is delivered
+	dieOnConnect bool // handshake-cut fault
 
 	txBytes, rxBytes uint64
 	txFrames         int
@@ -95,6 +103,10 @@ func (n *Net) Dial(cfg transport.DialConfig) (transport.Transport, error) {
 	if n.Unrel {
 		l.unrel = &unrelSide{l: l, rx: make(chan []byte, 1<<14)}
 	}
+	if n.HandshakeCut > 0 {
+		n.HandshakeCut--
+		l.dieOnConnect = true
+	}
 	n.Links = append(n.Links, l)
 	return l, nil
 }
@@ -123,19 +135,36 @@ func (l *Link) Read() ([]byte, error) {
 func (l *Link) Write(b []byte) error {
 	s := l.net.s
 	s.mu.Lock()
-	defer s.mu.Unlock()
 	if l.clientClosed {
+		s.mu.Unlock()
 		return transport.ErrAlreadyClosed
 	}
 	if l.isDead {
+		s.mu.Unlock()
 		return l.deadWriteErr
 	}
 	l.txBytes += uint64(len(b))
 	l.txFrames++
 	if l.blackhole {
+		if l.net.OnLost != nil {
+			if m, err := l.decode(b); err == nil {
+				l.net.OnLost(l, "c2b", m)
+			}
+		}
+		s.mu.Unlock()
 		return nil
 	}
 	l.c2b = append(l.c2b, cframe{append([]byte(nil), b...), s.Now()})
+	inline := l.net.Inline || (l.net.InlineHandshake && (l.bc == nil || !l.bc.Connected))
+	s.mu.Unlock()
+	if inline {
+		// zero-latency network: the broker sees the frame and answers before Write returns
+		l.net.inlineMu.Lock()
+		l.IngestAll()
+		s.Broker.ReleaseAll()
+		l.DeliverAll()
+		l.net.inlineMu.Unlock()
+	}
 	return nil
 }
 
@@ -208,6 +237,12 @@ func (l *Link) IngestOne() bool {
 	s.mu.Unlock()
 	s.Broker.curSentAt = f.at
 	m, err := l.decode(f.b)
+	if _, isConnect := m.(*message.ConnectRequest); isConnect && l.dieOnConnect && err == nil {
+		s.Stat("fault.handshake-cut")
+		s.Broker.noteConnectAttempt(l, m.(*message.ConnectRequest))
+		l.Kill(errClosed, errClosed)
+		return true
+	}
 	if err != nil {
 		s.HarnessError("broker cannot decode client frame on link %d: %v", l.ID, err)
 		return true
@@ -281,15 +316,32 @@ func (l *Link) Kill(readErr, writeErr error) {
 	l.isDead = true
 	l.deadReadErr = readErr
 	l.deadWriteErr = writeErr
-	lost := len(l.c2b)
+	lostC := l.c2b
 	l.c2b = nil
 	close(l.dead)
 	if l.unrel != nil {
 		l.unrel.closeLocked()
 	}
 	s.mu.Unlock()
-	s.StatN("net.frames-lost-c2b", lost)
+	s.StatN("net.frames-lost-c2b", len(lostC))
 	s.StatN("net.frames-lost-b2c", len(l.b2c))
+	if l.net.OnLost != nil {
+		for _, f := range lostC {
+			if m, err := l.decode(f.b); err == nil {
+				l.net.OnLost(l, "c2b", m)
+			}
+		}
+		for _, b := range l.b2c {
+			if m, err := l.decode(b); err == nil {
+				l.net.OnLost(l, "b2c", m)
+			}
+		}
+		for _, p := range s.Broker.Pend {
+			if p.Link == l && p.Msg != nil {
+				l.net.OnLost(l, "b2c", p.Msg)
+			}
+		}
+	}
 	l.b2c = nil
 	s.Broker.LinkDown(l)
 }
@@ -299,9 +351,28 @@ func (l *Link) Blackhole() {
 	s := l.net.s
 	s.mu.Lock()
 	l.blackhole = true
+	lostC := l.c2b
 	l.c2b = nil
 	s.mu.Unlock()
+	if l.net.OnLost != nil {
+		for _, f := range lostC {
+			if m, err := l.decode(f.b); err == nil {
+				l.net.OnLost(l, "c2b", m)
+			}
+		}
+		for _, b := range l.b2c {
+			if m, err := l.decode(b); err == nil {
+				l.net.OnLost(l, "b2c", m)
+			}
+		}
+		for _, p := range s.Broker.Pend {
+			if p.Link == l && p.Msg != nil {
+				l.net.OnLost(l, "b2c", p.Msg)
+			}
+		}
+	}
 	l.b2c = nil
+	s.Broker.LinkDown(l)
 }
 
 func (l *Link) String() string { return fmt.Sprintf("L%d", l.ID) }
